@@ -1017,8 +1017,8 @@ def PcOk (s : St) (t : Nat) : Pc → Prop
   | .xDone old => old ≠ 0 → s.ns old = .unl t
   | .acqCalled _ sl => sl < s.k
   | .acqLoaded _ sl q => sl < s.k ∧ q ≠ 0
-  | .acqPublished _ sl q => sl < s.k ∧ q ≠ 0 ∧ s.hp t sl = q
-  | .acqFenced _ sl q => sl < s.k ∧ q ≠ 0 ∧ s.hp t sl = q
+  | .acqPublished _ sl q => sl < s.k ∧ q ≠ 0 ∧ s.hp t sl = q ∧ s.prot t sl = 0
+  | .acqFenced _ sl q => sl < s.k ∧ q ≠ 0 ∧ s.hp t sl = q ∧ s.prot t sl = 0
   | .acqValidated sl q => q ≠ 0 ∧ s.prot t sl = q
   | .acqUse sl q => q ≠ 0 ∧ s.prot t sl = q
   | .relCalled sl => sl < s.k
@@ -1566,7 +1566,7 @@ theorem inv2_wrHp {s s' : St} {t r i v : Nat} (h2 : Inv2 s) (hs : stepWrHp s t r
     refine Inv2.mk' (s := s) (t := r) (p' := .acqPublished g i v) rfl h2.g_in h2.g_inj ?_ ?_
     · obtain ⟨a, b⟩ := hl.pcok
       constructor
-      · exact ⟨a, b, by simp [upd2_apply]⟩
+      · exact ⟨a, b, by simp [upd2_apply], by simp [upd2_apply]⟩
       · exact hl.rl
       · exact hl.rl_nd
       · intro j n hp hn
@@ -1614,7 +1614,7 @@ theorem inv2_ldG {s s' : St} {t g v : Nat} (h2 : Inv2 s) (hs : stepLdG s t g v =
     obtain ⟨rfl, rfl⟩ := hv
     have hl := h2.loc t
     rw [hpc] at hl
-    obtain ⟨a, b, c⟩ := hl.pcok
+    obtain ⟨a, b, c, _⟩ := hl.pcok
     have hin : s.ns p = .inG := by rw [← hvp]; exact h2.g_in g (by rw [hvp]; exact b)
     refine Inv2.mk' (s := s) (t := t) (p' := .acqValidated sl p) rfl h2.g_in h2.g_inj ?_ ?_
     · constructor
